@@ -19,7 +19,11 @@ import (
 	"strings"
 )
 
-func main() { tx.Main(tx.Unit{Name: "T1", File: "GenMsg.v", Fn: genMsg}) }
+func main() {
+	tx.Main(tx.Unit{Name: "T1", File: "GenMsg.v", Fn: genMsg},
+		tx.Unit{Name: "T1R", File: "GenMsgRec.v", Fn: genMsgRec},
+		tx.Unit{Name: "T1T", File: "GenMsgRecThms.v", Fn: genMsgRecThms})
+}
 
 type msgField struct {
 	goName, jsonName string
@@ -27,17 +31,29 @@ type msgField struct {
 	omit             bool
 }
 
-func genMsg() ([]byte, error) {
+type msgConst struct {
+	name string
+	val  int
+}
+
+type msgKV struct{ k, v string }
+
+// msgSrc is what T1 reads from pkg/msg/msg.go.
+type msgSrc struct {
+	consts      []msgConst
+	tmap        []msgKV
+	structs     map[string][]msgField
+	structOrder []string
+}
+
+func parseMsgGo() (*msgSrc, error) {
 	fset := token.NewFileSet()
 	f, err := parser.ParseFile(fset, filepath.Join(tx.Repo, "pkg/msg/msg.go"), nil, 0)
 	if err != nil {
 		return nil, err
 	}
-	type kv struct{ k, v string }
-	var consts []struct {
-		name string
-		val  int
-	}
+	type kv = msgKV
+	var consts []msgConst
 	var tmap []kv
 	structs := map[string][]msgField{}
 	var structOrder []string
@@ -56,10 +72,7 @@ func genMsg() ([]byte, error) {
 					}
 					bl, ok := vs.Values[i].(*ast.BasicLit)
 					if !ok {
-						consts = append(consts, struct {
-							name string
-							val  int
-						}{n.Name, -1})
+						consts = append(consts, msgConst{n.Name, -1})
 						continue
 					}
 					v := -1
@@ -73,10 +86,7 @@ func genMsg() ([]byte, error) {
 							v = int(x)
 						}
 					}
-					consts = append(consts, struct {
-						name string
-						val  int
-					}{n.Name, v})
+					consts = append(consts, msgConst{n.Name, v})
 				}
 			}
 		case token.VAR:
@@ -141,6 +151,16 @@ func genMsg() ([]byte, error) {
 			}
 		}
 	}
+
+	return &msgSrc{consts: consts, tmap: tmap, structs: structs, structOrder: structOrder}, nil
+}
+
+func genMsg() ([]byte, error) {
+	src, err := parseMsgGo()
+	if err != nil {
+		return nil, err
+	}
+	consts, tmap, structs, structOrder := src.consts, src.tmap, src.structs, src.structOrder
 
 	var kindOf func(e ast.Expr, depth int) string
 	fieldsOf := func(name string, depth int) string {
